@@ -112,6 +112,7 @@ class Sched:
         st.role = 'main'
         st.started = True
         st.real = _th.current_thread()
+        st.real._sim_sched = self
         p = Proc('main')
         p.main_st = st
         p.handlers[SIGINT] = default_int_handler
@@ -157,6 +158,9 @@ class Sched:
         raise SimAbort()
 
     def check_abort(self):
+        if getattr(_th.current_thread(), '_sim_sched', None) is not self:
+            # a thread left over from an earlier run (it did not unwind in time) woke up: it has no business in this run
+            raise SimAbort()
         if self.abort:
             me_ident = _th.get_ident()
             main = self.threads[0]
@@ -406,6 +410,7 @@ class Thread:
         S.threads.append(st)
         S.ledger['proc_started' if self._is_proc else 'thread_started'] += 1
         st.real = _real_Thread(target=self._boot, daemon=True, name='sim-' + st.name)
+        st.real._sim_sched = S
         st.real.start()
         st.started = True
         st.start_step = S.steps
